@@ -52,6 +52,11 @@ where
         }
         std::mem::forget(guard);
 
+        if i < self.chunk_size() {
+            // the wrapped iterator returned None: there is nothing left
+            iter.set_completed();
+        }
+
         let older_count = iter.progress_yielded_counter(self.chunk_size());
         assert_eq!(older_count, begin_idx);
 
